@@ -88,6 +88,7 @@ def CertSt.msgOfBase (s : CertSt) (t : String) : Option Msg :=
       | _, _ => none
     | _ => none
   else if t.startsWith "raw:" then some t
+  else if t.startsWith "hex:" then some t      -- literal bytes
   else none
 
 /-- `enc:<id>:<msg>`: the bytes the signature cache hashes for the one-entry batch `{id: msg}` (id, length,
